@@ -151,4 +151,110 @@ theorem lookupAll_ok {α : Type} (actions : List (String × α)) : (us : List St
           | tail _ hb' => exact i2 b hb'
       · simp at ha
 
+theorem dropChild_flowId (p u : String) (g : Flow) : (dropChild p u g).flowId = g.flowId := by
+  unfold dropChild; split <;> rfl
+
+theorem filter_map_uid_comm' (l : List Flow) (u : String) :
+    (l.filter (·.uid != u)).map (·.uid) = (l.map (·.uid)).filter (· != u) := by
+  induction l with
+  | nil => rfl
+  | cons a l ih => simp only [List.filter_cons, List.map_cons]; split <;> simp_all
+
+theorem nodup_removeOne {α : Type} (s : St α) (u : String) (h : (s.flows.map (·.uid)).Nodup) :
+    ((removeOne s u).flows.map (·.uid)).Nodup := by
+  rw [removeOne_uids]
+  exact List.Nodup.sublist List.filter_sublist h
+
+theorem idx_step_core {α : Type} (s : St α) (u : String) (f : Flow) (hfm : f ∈ s.flows) (hfu : f.uid = u)
+    (hnd : (s.flows.map (·.uid)).Nodup) (h : IdxOk s) (fl' : List Flow)
+    (hc : fl' = s.flows ∨ ∃ p, fl' = s.flows.map (dropChild p u)) :
+    IdxOk ({ flows := fl'.filter (·.uid != u),
+             idx := s.idx.map fun e => if e.1 == f.flowId then (e.1, e.2.erase u) else e,
+             actions := s.actions } : St α) := by
+  have key : ∀ (fl : List Flow) (fid : String),
+      ((fl.filter (·.uid != u)).filter (fun g => g.flowId == fid)).map (·.uid)
+        = ((fl.filter (fun g => g.flowId == fid)).map (·.uid)).filter (· != u) := by
+    intro fl fid
+    rw [← filter_map_uid_comm', List.filter_filter, List.filter_filter]
+    congr 1
+    apply List.filter_congr; intro g _; exact Bool.and_comm _ _
+  have hmap : ∀ (p : String) (fid : String),
+      (((s.flows.map (dropChild p u)).filter (·.uid != u)).filter (fun g => g.flowId == fid)).map (·.uid)
+        = ((s.flows.filter (·.uid != u)).filter (fun g => g.flowId == fid)).map (·.uid) := by
+    intro p fid
+    induction s.flows with
+    | nil => rfl
+    | cons a l ih =>
+      simp only [List.map_cons, List.filter_cons, dropChild_uid]
+      split
+      · simp only [List.filter_cons, dropChild_flowId]
+        split <;> simp_all [dropChild_uid]
+      · exact ih
+  have hflows : ∀ fid : String,
+      ((fl'.filter (·.uid != u)).filter (fun g => g.flowId == fid)).map (·.uid)
+        = ((s.flows.filter (fun g => g.flowId == fid)).map (·.uid)).filter (· != u) := by
+    intro fid
+    rcases hc with rfl | ⟨p, rfl⟩
+    · rw [key]
+    · rw [hmap, key]
+  intro e he
+  simp only [List.mem_map] at he
+  obtain ⟨e0, he0, rfl⟩ := he
+  have h0 := h e0 he0
+  have hnd' : ((s.flows.filter (fun g => g.flowId == e0.1)).map (·.uid)).Nodup :=
+    List.Nodup.sublist (List.Sublist.map _ List.filter_sublist) hnd
+  by_cases hc' : (e0.1 == f.flowId) = true
+  · simp only [hc', if_true]
+    rw [hflows, h0, List.Nodup.erase_eq_filter hnd']
+  · have hc'' : (e0.1 == f.flowId) = false := by simpa using hc'
+    simp only [hc'', Bool.false_eq_true, if_false]
+    rw [hflows]
+    have hself : ((s.flows.filter (fun g => g.flowId == e0.1)).map (·.uid)).filter (· != u)
+        = (s.flows.filter (fun g => g.flowId == e0.1)).map (·.uid) := by
+      apply List.filter_eq_self.2
+      intro x hx
+      obtain ⟨g, hg, rfl⟩ := List.mem_map.1 hx
+      obtain ⟨hgm, hgf⟩ := List.mem_filter.1 hg
+      simp only [bne_iff_ne, ne_eq]
+      intro e
+      have hgf' : g = f := eq_of_nodup_uids s.flows hnd g hgm f hfm (by rw [e, hfu])
+      have hfid : e0.1 = g.flowId := (beq_iff_eq.1 hgf).symm
+      rw [hgf'] at hfid
+      exact hc' (beq_iff_eq.2 hfid)
+    rw [hself]; exact h0
+
+/-- one removal step keeps the index exact -/
+theorem removeOne_idx {α : Type} (s : St α) (u : String) (hnd : (s.flows.map (·.uid)).Nodup) (h : IdxOk s) :
+    IdxOk (removeOne s u) := by
+  unfold removeOne
+  split
+  · exact h
+  · rename_i f hf
+    have hfm : f ∈ s.flows := List.mem_of_find?_eq_some hf
+    have hfu : f.uid = u := by simpa using List.find?_some hf
+    cases hp : f.parent with
+    | none => exact idx_step_core s u f hfm hfu hnd h s.flows (Or.inl rfl)
+    | some p =>
+      by_cases hpe : p = ""
+      · simpa [hpe] using idx_step_core s u f hfm hfu hnd h s.flows (Or.inl rfl)
+      · simpa [hpe] using idx_step_core s u f hfm hfu hnd h (s.flows.map (dropChild p u)) (Or.inr ⟨p, rfl⟩)
+
+theorem fold_idx {α : Type} : (rm : List String) → (s : St α) → (s.flows.map (·.uid)).Nodup → IdxOk s →
+    IdxOk (rm.foldl removeOne s)
+  | [], _, _, h => h
+  | u :: rm, s, hnd, h => by
+    simp only [List.foldl_cons]
+    exact fold_idx rm (removeOne s u) (nodup_removeOne s u hnd) (removeOne_idx s u hnd h)
+
+theorem sweep_idx {α : Type} (now age : Int) (s : St α) (hnd : (s.flows.map (·.uid)).Nodup) (h : IdxOk s) :
+    IdxOk (sweep now age s) := by
+  unfold sweep
+  apply fold_idx
+  · simpa [List.map_map, Function.comp_def, clearScores] using hnd
+  · intro e he
+    have := h e he
+    simp only [List.filter_map, List.map_map, Function.comp_def]
+    simpa [clearScores, Function.comp_def] using this
+
+
 end NemoVerif.CleanUp
